@@ -45,14 +45,14 @@ enum { ST_MUST, ST_MAY, ST_NEVER };
 enum { TRIM_NONE, TRIM_HDR1_FIRST, TRIM_HDR2_FIRST, TRIM_HDR_SECOND, TRIM_EXACT };
 
 enum { CL_HDRCUT, CL_TWO, CL_STUFF, CL_DISC, CL_DROP, CL_BADHDR, CL_SEG, CL_LEADIN, CL_PTR,
-       CL_SPAN3, CL_MAXLEN, CL_MINLEN, CL_EXACT, CL_HOLD, CL_FUZZ, CL_WINDOW, CL_ARENA, CL_SEGHDR, CL_RESYNC, CL_MAYOUT };
+       CL_SPAN3, CL_MAXLEN, CL_MINLEN, CL_EXACT, CL_HOLD, CL_FUZZ, CL_WINDOW, CL_ARENA, CL_SEGHDR, CL_RESYNC, CL_MAYOUT, CL_REFLOW };
 static const char *const class_names[] = {
     "section_cut_inside_header", "two_sections_in_one_payload", "stuffing", "discontinuity_flag",
     "dropped_payload", "forbidden_header", "segmented_input", "lead_in_unsynchronised_pointer",
     "pointer_field_gt0_while_synchronised", "section_spans_3_payloads", "section_4096",
     "section_3", "section_ends_on_payload_end", "sink_holds_outputs", "fuzz_mode",
     "window_into_packet", "window_into_arena", "segment_boundary_inside_header",
-    "required_section_after_event", "optional_section_present", NULL };
+    "required_section_after_event", "optional_section_present", "flow_def_set_again_in_mid_stream", NULL };
 
 struct sec {
     uint8_t *b; int len; int kind;
@@ -524,8 +524,20 @@ static int run(const uint8_t *tape, size_t len, struct vp_report *rep, unsigned 
     if (!ubase_check(upipe_set_output(psim, &c->sink.upipe))) FAIL("C16/merge/set-output", "set_output refused");
     uref_free(flow_def); flow_def = NULL;
 
+    /* in a quarter of the cases the flow definition is announced again in mid-stream (another latency, as an upstream pipe does when
+     * its own latency changes): a section that is being assembled stays in assembly (uses no tape octet) */
+    int reflow_at = (c->npay > 1 && (c->npay * 7 + c->nsec * 3) % 4 == 0) ? 1 + (c->npay * 5 + c->nsec) % (c->npay - 1) : -1;
     for (int q = 0; q < c->npay && !c->ret; q++) {
         struct pay *p = &c->pay[q];
+        if (q == reflow_at) {
+            struct uref *fd2 = uref_block_flow_alloc_def(c->fm.uref_mgr, "mpegtspsi.");
+            if (fd2) uref_clock_set_latency(fd2, 27000);
+            R("  set_flow_def again (latency 27000)\n");
+            if (!fd2 || !ubase_check(upipe_set_flow_def(psim, fd2))) FAIL("C16/merge/flow-def", "flow definition block.mpegtspsi. refused in mid-stream");
+            uref_free(fd2);
+            CLS(CL_REFLOW);
+            c->hash = vp_hash_mix(c->hash, 0xf10d);
+        }
         c->nrec_before[q] = c->sink.nrec;
         c->hash = vp_hash_mix(c->hash, (p->n << 8) | (p->pusi << 3) | (p->disc << 2) | (p->dropped << 1) | (p->build == C16_BUILD_PIECES ? p->ncuts << 16 : 0) | (p->build << 4));
         if (p->dropped) { R("  #%d (lost) n=%d\n", q, p->n); continue; }
